@@ -35,8 +35,9 @@ fn points_u32(t: u32) -> Vec<u32> {
 fn points_days(t: i64) -> Vec<i64> {
     let t = t as i128;
     let h = t * 3 / 2;
-    let mut v: Vec<i128> = vec![0, t - 1, t, t + 1, h - 1, h, h + 1, 2 * t, MAX_AGE_DAYS as i128];
-    v.retain(|x| *x >= 0 && *x <= MAX_AGE_DAYS as i128);
+    // a snapshot stamped ahead of the server's clock (clock stepped back) has a negative age
+    let mut v: Vec<i128> = vec![-400, -2, -1, 0, t - 1, t, t + 1, h - 1, h, h + 1, 2 * t, MAX_AGE_DAYS as i128];
+    v.retain(|x| *x >= -400 && *x <= MAX_AGE_DAYS as i128);
     v.sort();
     v.dedup();
     v.into_iter().map(|x| x as i64).collect()
@@ -176,6 +177,9 @@ pub fn shard_run(tier: &str, seed: u64, replay_case: Option<usize>, shard: Shard
                 let got = plant_and_add(&mut subj, client, *age, *since, extra);
                 let want_before = spec_urgency(cfg, Some((*age, *since)));
                 let want_after = spec_urgency(cfg, Some((*age, since.saturating_add(1))));
+                // a negative elapsed time: "whole days" may be taken by flooring or by truncating
+                // towards zero; both readings are accepted
+                let neg_alt: Option<(Urg, Urg)> = if *age < 0 { Some((spec_urgency(cfg, Some((*age + 1, *since))), spec_urgency(cfg, Some((*age + 1, since.saturating_add(1)))))) } else { None };
                 let case = json!({"origin": "planted", "case": 1_000_000 + ci, "subject": kind.name(), "snapshot_days": cfg.snapshot_days, "snapshot_versions": cfg.snapshot_versions, "age_days": age, "versions_since": since});
                 match got {
                     Err(e) => {
@@ -197,10 +201,10 @@ pub fn shard_run(tier: &str, seed: u64, replay_case: Option<usize>, shard: Shard
                             first_high = Some(m);
                         }
                         cov.hit(format!("plant:{}:{}:{:?}", sweep, class_of(cfg, *sweep), u));
-                        if u != want_before {
+                        if u != want_before && neg_alt.map(|n| u != n.0).unwrap_or(true) {
                             conv.before_ok = false;
                         }
-                        if u != want_after {
+                        if u != want_after && neg_alt.map(|n| u != n.1).unwrap_or(true) {
                             conv.after_ok = false;
                         }
                         if !conv.before_ok && !conv.after_ok {
@@ -217,7 +221,7 @@ pub fn shard_run(tier: &str, seed: u64, replay_case: Option<usize>, shard: Shard
                             return out;
                         }
                         if let Some((pu, pm)) = prev {
-                            let grew = *age >= pm.0 && *since >= pm.1;
+                            let grew = *age >= pm.0 && *since >= pm.1 && pm.0 >= 0;
                             if grew && u < pu {
                                 out.found.push(Found {
                                     property: "C12".into(),
